@@ -105,4 +105,4 @@ def json_value(v: Any) -> Any:
     return v
 
 
-VCFG = S.ValCfg(finite_floats=True, long_str=60, long_dyn=20, magic_lengths=False)
+VCFG = S.ValCfg(finite_floats=True, long_str=60, long_dyn=20, magic_lengths=False, pad_blocks=False)
